@@ -285,16 +285,23 @@ func PerpendicDistFromLineSqrD(pt, line1, line2 PointD) float64 {
 }
 
 func PerpendicDistFromLineSqr64(pt, line1, line2 Point64) float64 {
-	a := float64(pt.X - line1.X)
-	b := float64(pt.Y - line1.Y)
-	c := float64(line2.X - line1.X)
-	d := float64(line2.Y - line1.Y)
+	ia, ib, ic, id := pt.X-line1.X, pt.Y-line1.Y, line2.X-line1.X, line2.Y-line1.Y
+	a := float64(ia)
+	b := float64(ib)
+	c := float64(ic)
+	d := float64(id)
 
 	if c == 0 && d == 0 {
 		return 0
 	}
 
-	return sqr(a*d-c*b) / (c*c + d*d)
+	cross := a*d - c*b
+	if fitsProduct(ia, id, ic, ib) {
+		// exact in int64: a point off the line never gets distance zero from rounded products
+		cross = float64(ia*id - ic*ib)
+	}
+
+	return sqr(cross) / (c*c + d*d)
 }
 
 func Ellipse64(center Point64, radiusX, radiusY float64, steps int) Path64 {
